@@ -154,3 +154,63 @@ def laplacian_filter(f, order, ftype):
     for c in range(3):
         f = f - filter1d(f, c, order)
     return f
+
+
+# --------------------------------------------------------------------------- reference time steps (C01)
+
+
+def ns_step_reference(state, cfg, solve):
+    """One documented Navier–Stokes step.  `state`: dict vorticity, velocity, forcing (or None);
+    cfg: dim, dt, dx, nu, rho, width, free_stream (array or None), filter (None or (order, type));
+    `solve(rhs) -> psi` is the Poisson solve (a parameter of the specification, decided by C03 / C11).
+    Returns the new state (new arrays); the stream function is returned too."""
+    dim = cfg["dim"]
+    w = np.array(state["vorticity"], dtype=np.float64, copy=True)
+    u = np.array(state["velocity"], dtype=np.float64, copy=True)
+    dt, dx, nu = cfg["dt"], cfg["dx"], cfg["nu"]
+    F = state.get("forcing")
+    if F is not None:
+        F = np.asarray(F, dtype=np.float64)
+        p = dt / (2 * dx * cfg["rho"])
+        if dim == 2:
+            w[inner(w, 1)] += p * curl2_in(F)
+        else:
+            w[inner(w, 1, 3)] += p * curl3(F)
+    if dim == 2:
+        w[inner(w, 2)] -= (dt / dx) * eno3_divergence(w, u)
+        w = w + laplacian_flux(w, nu * dt / dx / dx, np.zeros_like(w), True)
+    else:
+        uxw = np.cross(u, w, axis=0)
+        w[inner(w, 1, 3)] += (dt / (2 * dx)) * curl3(uxw)
+        w = np.array([c + laplacian_flux(c, nu * dt / dx / dx, np.zeros_like(c), True) for c in w])
+        if cfg.get("filter"):
+            order, ftype = cfg["filter"]
+            if order > 0:
+                w = np.array([laplacian_filter(c, order, ftype) for c in w])
+            else:
+                raise ValueError("filter order 0 leaves the result dependent on scratch contents")
+    w = damp(w, cfg["width"], dim)
+    psi = solve(w)
+    unew = np.zeros_like(u)
+    if dim == 2:
+        unew[(slice(None),) + inner(psi, 1)] = (0.5 / dx) * curl2_out(psi)
+    else:
+        unew[inner(unew, 1, 3)] = (0.5 / dx) * curl3(psi)
+    if cfg.get("free_stream") is not None:
+        unew = unew + np.asarray(cfg["free_stream"], dtype=np.float64).reshape((dim,) + (1,) * dim)
+    return {"vorticity": w, "velocity": unew, "forcing": None if F is None else np.zeros_like(F), "psi": psi}
+
+
+def passive_step_reference(f, u, dt, dx, nu):
+    """advection (ENO3, Euler forward) then diffusion, scalar field or vector field component-wise"""
+    f = np.array(f, dtype=np.float64, copy=True)
+    u = np.asarray(u, dtype=np.float64)
+    dim = u.shape[0]
+    comps = [f] if f.ndim == dim else list(f)
+    out = []
+    for c in comps:
+        c = c.copy()
+        c[inner(c, 2)] -= (dt / dx) * eno3_divergence(c, u)
+        c = c + laplacian_flux(c, nu * dt / dx / dx, np.zeros_like(c), True)
+        out.append(c)
+    return out[0] if f.ndim == dim else np.array(out)
